@@ -98,6 +98,9 @@ def sample_sets(rng):
             nodes = [T(texts[(i + j) % len(texts)] if i < len(texts) else rng.choice(texts))]
             if rng.random() < 0.5:
                 nodes += [CaptionNode.create_break(), T(rng.choice(texts))]
+            if i % 4 == 1 and j == 0:
+                # a blank row inside the cue, then a row of digits (what a cue number looks like)
+                nodes += [CaptionNode.create_break(), T(" "), CaptionNode.create_break(), T("2024")]
             caps.append(Caption(t, t + 2 * 10 ** 6 + (1 / 3 if i % 3 == 0 else 0), nodes))
             t += 5 * 10 ** 6
         out.append(CaptionSet({"en-US": CaptionList(caps)}))
